@@ -602,6 +602,36 @@ impl BytecodeInterpreterAction {"""),
   """                        let i_id = Identifier::from(format!("%index{}", unique_number));
                         let size_id = Identifier::from(format!("%len{}", unique_number));
                         let array_id = Identifier::from(format!("%arr{}", unique_number));"""),
+ ("benign-json-written-pretty", "src/main.rs",
+  """            ASTSerializer::JSON  => serde_json::to_string(&ast)?,""",
+  """            ASTSerializer::JSON  => serde_json::to_string_pretty(&ast)?,"""),
+ ("benign-serializer-writes-once", "src/bytecode/program.rs",
+  """        self.constant_pool.serialize(sink, &self.code)?;
+        self.globals.serialize(sink)?;
+        self.entry.serialize(sink)
+    }""",
+  """        // assemble the image in memory and hand it to the sink in one piece
+        let mut image: Vec<u8> = Vec::new();
+        self.constant_pool.serialize(&mut image, &self.code)?;
+        self.globals.serialize(&mut image)?;
+        self.entry.serialize(&mut image)?;
+        sink.write_all(&image)?;
+        Ok(())
+    }"""),
+ ("benign-heap-log-timestamps-in-microseconds", "src/bytecode/heap.rs",
+  """            let timestamp = SystemTime::now().duration_since(SystemTime::UNIX_EPOCH).unwrap().as_nanos();
+            write!(file, "{},A,{}\\n", timestamp, $memory).unwrap();""",
+  """            let timestamp = SystemTime::now().duration_since(SystemTime::UNIX_EPOCH).unwrap().as_micros();
+            write!(file, "{},A,{}\\n", timestamp, $memory).unwrap();"""),
+ ("benign-listing-code-indented", "src/bytecode/program.rs",
+  """        for (i, opcode) in self.0.iter().enumerate() {
+            writeln!(f, "{}: {}", i, opcode)?;
+        }
+        Ok(())""",
+  """        for (i, opcode) in self.0.iter().enumerate() {
+            writeln!(f, "    {}: {}", i, opcode)?;
+        }
+        Ok(())"""),
  ("benign-yaml-written-with-document-end", "src/main.rs",
   """            ASTSerializer::YAML  => serde_yaml::to_string(&ast)?,""",
   """            ASTSerializer::YAML  => format!("{}\n...", serde_yaml::to_string(&ast)?.trim_end()),"""),
